@@ -298,7 +298,7 @@ class Ref:
                 if any(outs[0] in op2["inputs"] for op2 in self.sg["operators"]):
                     raise Unsupported("%s feeding another operator" % k)
                 ty = self.tens(outs[0])["type"]
-                if ty not in ("int8", "uint8") or self.tens(ins[0])["type"] != ty:
+                if ty not in (("int8", "uint8", "int16") if k == "MEAN" else ("int8", "uint8")) or self.tens(ins[0])["type"] != ty:
                     raise Unsupported("%s type %s" % (k, ty))
                 (si,), (zi,) = [x[:1] for x in self.quant(ins[0])]
                 (so,), (zo,) = [x[:1] for x in self.quant(outs[0])]
@@ -479,7 +479,7 @@ class Ref:
         """the real function applied to the dequantised 8-bit input, requantised with round-half-away (the reference kernels
         stay within one step of this)"""
         ty = self.tens(out_idx)["type"]
-        if ty not in ("int8", "uint8") or self.tens(in_idx)["type"] != ty:
+        if ty not in (("int8", "uint8", "int16") if k == "LEAKY_RELU" else ("int8", "uint8")) or self.tens(in_idx)["type"] != ty:
             raise Unsupported("table operator type %s" % ty)
         (si,), (zi,) = [x[:1] for x in self.quant(in_idx)]
         (so,), (zo,) = [x[:1] for x in self.quant(out_idx)]
